@@ -23,14 +23,14 @@ FUNCTIONS_ENCODED = [
     "pyanalyze.signature.Signature.check_call_preprocessed / check_call_with_bound_args / _check_param_type_compatibility (both passes)",
     "pyanalyze.typevar.resolve_bounds_map / solve / remove_redundant_solutions", "pyanalyze.value.unify_bounds_maps / intersect_bounds_maps",
     "pyanalyze.value.TypeVarValue.can_assign / can_be_assigned / make_bounds_map / get_inherent_bounds / substitute_typevars",
-    "pyanalyze.value.CallableValue.can_assign -> pyanalyze.signature.Signature.can_assign (source of upper bounds)", "pyanalyze.value.GenericValue.can_assign (list[T])",
+    "pyanalyze.value.CallableValue.can_assign -> pyanalyze.signature.Signature.can_assign (source of upper bounds)", "pyanalyze.value.GenericValue.can_assign (list[T], dict[T, U])", "two type variables: dict[T, U], Callable[[T], U] (h15_two)",
 ]
 BOUNDS = {
     "quick": {"signatures": "1-3 parameters from {T, list[T], Callable[[T], None], Callable[[], T]}, T plain / bound to an atom / constrained to two atoms, return T; all permutations",
               "arguments": "atoms (distinct per parameter / all the same) or one Any; a 24th of the 3-parameter signatures", "relation": "every preorder on 3 atoms"},
     "thorough": {"signatures": "same, all argument assignments", "arguments": "same", "relation": "same"},
 }
-OUTSIDE = ["bounds produced by protocols / generic user classes (need the visitor and attribute lookup)", "ParamSpec solving", "dict[K, V] with two variables"]
+OUTSIDE = ["bounds produced by protocols / generic user classes (need the visitor and attribute lookup)", "ParamSpec solving"]
 STUBS = ["stub atoms with a symbolic preorder", "_CanAssignBasedContext with the real Checker collects the errors"]
 ASSUMPTIONS = ["a kernel-only (typevar.solve in isolation) obligation is NOT claimed: the caller re-checks arguments against substituted parameter types (DESIGN.md section 5 C15)"]
 
@@ -40,8 +40,9 @@ def prepare(template, data):
     saved = G.case
     G.case = data
     try:
-        h15(False, False, False, False, False, False)
-        h15(True, True, True, True, True, True)
+        fn = h15 if template == "h15" else h15_two
+        fn(False, False, False, False, False, False)
+        fn(True, True, True, True, True, True)
     finally:
         G.case = saved
 
@@ -106,6 +107,56 @@ def h15(b0: bool, b1: bool, b2: bool, b3: bool, b4: bool, b5: bool) -> bool:
     return fin(True)
 
 
+def h15_two(b0: bool, b1: bool, b2: bool, b3: bool, b4: bool, b5: bool) -> bool:
+    """
+    post: _
+    """
+    # two type variables: dict[T, U], Callable[[T], U]; the solution of both is read from the return type dict[T, U]
+    if excluded(b0=b0, b1=b1, b2=b2, b3=b3, b4=b4, b5=b5):
+        return skip()
+    from pyanalyze.value import GenericValue
+
+    data = G.case
+    rel = Rel(3, (b0, b1, b2, b3, b4, b5))
+    atoms = [Atom(i, rel) for i in range(3)]
+    params = [(f"p{i}", tuple(a), None) for i, a in enumerate(data["params"])]
+    args = [tuple(a) if isinstance(a, list) else a for a in data["args"]]
+    diagnosed, ret, errors = CC.run_call(params, ("dictTU",), ("plain",), args, atoms)
+    for perm in itertools.permutations(range(len(params))):
+        if list(perm) == list(range(len(params))):
+            continue
+        d2, r2, e2 = CC.run_call(params, ("dictTU",), ("plain",), args, atoms, order=perm)
+        if d2 != diagnosed:
+            return fin(False)
+    b = CC.bounds_of2(params, args, atoms)
+    feasible = True
+    for var in ("T", "U"):
+        lows, ups = b[var]
+        okv = False
+        for c in CC.candidates(atoms):
+            if all(ref_accepts(rel, c, lo) for lo in lows) and all(ref_accepts(rel, up, c) for up in ups):
+                okv = True
+        if not okv:
+            feasible = False
+    if diagnosed:
+        return fin(True, nontrivial=not feasible)
+    if not feasible:
+        return fin(False)
+    if not isinstance(ret, GenericValue) or len(ret.args) != 2:
+        return fin(False)
+    for var, S in (("T", ret.args[0]), ("U", ret.args[1])):
+        if isinstance(S, AnyValue):
+            continue
+        lows, ups = b[var]
+        for lo in lows:
+            if not ref_accepts(rel, S, lo):
+                return fin(False)
+        for up in ups:
+            if not ref_accepts(rel, up, S):
+                return fin(False)
+    return fin(True)
+
+
 KINDS = [("T",), ("boxT",), ("cbT",), ("retT",)]
 TVS = [("plain",), ("bound", 0), ("bound", 2), ("constr", 0, 1), ("constr", 1, 2)]
 
@@ -148,4 +199,26 @@ def cases(tier: str, seed: int) -> List[Case]:
                     params = [list(k) for k in kinds]
                     out.append(Case("h15", _lab(kinds, tv, args), {"params": params, "tv": list(tv), "args": list(args)},
                                     timeout=90 if quick else 300, twin=(idx % 4 == 0), vacuous_ok=True))
+    # two type variables
+    kinds2 = [("T",), ("U",), ("cbTU",), ("dictTU",)]
+    for n in (1, 2, 3):
+        for kinds in itertools.product(kinds2, repeat=n):
+            if not any(k[0] in ("cbTU", "dictTU") for k in kinds):
+                continue
+            argsets = []
+            for shift in (0, 1) if quick else (0, 1, 2):
+                a = []
+                for i, k in enumerate(kinds):
+                    if k[0] in ("cbTU", "dictTU"):
+                        a.append([(i + shift) % 3, (i + shift + 1) % 3])
+                    else:
+                        a.append((i + shift) % 3)
+                argsets.append(a)
+            for args in argsets:
+                idx += 1
+                if n == 3 and (idx + seed) % (20 if quick else 2) != 0:
+                    continue
+                out.append(Case("h15_two", "two:" + ",".join(k[0] for k in kinds) + "|" + ";".join(str(a) for a in args),
+                                {"params": [list(k) for k in kinds], "args": args}, timeout=90 if quick else 300,
+                                twin=(idx % 4 == 0), vacuous_ok=True))
     return out
